@@ -4,6 +4,7 @@ import ALV.Spec.C11
 import ALV.Model.C11Hist
 import ALV.Model.C11Float
 import ALV.Model.C11Call
+import ALV.Model.C11LevFloat
 namespace ALV.Driver.C11
 open ALV ALV.J ALV.C11 ALV.C11.Hist
 
@@ -32,6 +33,12 @@ def bitsJson (l : List F64) : Json := arr (fun (x : F64) => natToJson x.bits.toN
 def fksJson (r : List F64 × Bool) : Json :=
   Json.mkObj [("bits", bitsJson r.1), ("raised", Json.bool r.2),
               ("finite", Json.bool (r.1.all F64.isFinite))]
+
+def flevJson : Option (List F64 × F64 × List F64) → Json
+  | none => Json.mkObj [("err", Json.str "ParCorError")]
+  | some (a, e, ks) =>
+    Json.mkObj [("a", bitsJson a), ("error", natToJson e.bits.toNat), ("ks", bitsJson ks),
+                ("finite", Json.bool ((e :: a ++ ks).all F64.isFinite))]
 
 def callResJson : CallRes Rat → Json
   | .valueError => Json.mkObj [("err", Json.str "ValueError")]
@@ -193,6 +200,24 @@ def handle (entry : String) (j : Json) : Except String Json := do
     -- the squaring function of the twin, for the libm identity check of the harness
     let xs ← getList getBits (← field j "bits")
     pure <| Json.mkObj [("pow", bitsJson (xs.map F64.sqPow)), ("mul", bitsJson (xs.map (fun x => x * x)))]
+  | "flevinson" =>
+    -- levinson_durbin(r, order) on binary64 autocorrelation data: the bit-exact twin (sum = CPython's
+    -- compensated sum), the generic model verbatim (sum = left fold), and the exact recursion with
+    -- the specification's error on the rational values of the same numbers
+    let r ← getList getBits (← field j "bits")
+    let order ← getNat (← field j "order")
+    let q := r.map f64ToRat
+    pure <| Json.mkObj [
+      ("twin", flevJson (levinsonF64 r order)), ("twin_fold", flevJson (levinsonF64Fold r order)),
+      ("input_finite", Json.bool (r.all F64.isFinite)),
+      ("exact", match levinson q order with
+        | none => Json.mkObj [("err", Json.str "ParCorError")]
+        | some (a, e, ks) => Json.mkObj [("a", rats a), ("error", ratToJson e), ("ks", rats ks),
+            ("spec_error", ratToJson (errorSpec (q.headD 0) ks)), ("spec_a", rats (stepUp ks))])]
+  | "fsum" =>
+    -- the summation function of the twin, for the identity check of the harness
+    let ls ← getList (getList getBits) (← field j "lists")
+    pure <| Json.mkObj [("sum", bitsJson (ls.map (sumPyG F64.isFinite))), ("fold", bitsJson (ls.map lsum))]
   | "call" =>
     -- parcor / parcor_stable on ZFilter(num, den) with Laurent numerator and denominator
     let numLo ← getInt (← field j "num_lo")
